@@ -75,7 +75,7 @@ type Replica struct {
 // simchain.NewNode does, so that the InitChain state is durable.
 func NewReplicaFromGenesis(name string, g *Genesis) (*Replica, error) {
 	r := &Replica{Name: name, DB: dbm.NewMemDB(), Time: g.Time}
-	r.App = simchain.NewApp(r.DB)
+	r.App = simchain.NewAppWithOptions(r.DB, AppOptions{})
 	if err := r.initChain(g); err != nil {
 		return nil, err
 	}
@@ -159,7 +159,7 @@ func (r *Replica) FinalizeAndCommit(b *Block) *BlockResult {
 // the same disk.
 func (r *Replica) Restart() {
 	r.pending = nil
-	r.App = simchain.NewApp(r.DB)
+	r.App = simchain.NewAppWithOptions(r.DB, AppOptions{})
 	if r.App.LastBlockHeight() != r.Height {
 		panic(fmt.Sprintf("%s restart: durable height %d, expected %d", r.Name, r.App.LastBlockHeight(), r.Height))
 	}
@@ -190,7 +190,7 @@ func (r *Replica) Export() (exp servertypes.ExportedApp, err error) {
 			err = fmt.Errorf("export panicked: %v", x)
 		}
 	}()
-	tmp := simchain.NewApp(r.DB)
+	tmp := simchain.NewAppWithOptions(r.DB, AppOptions{})
 	if tmp.LastBlockHeight() != r.Height {
 		return exp, fmt.Errorf("export: durable height %d, expected %d", tmp.LastBlockHeight(), r.Height)
 	}
